@@ -167,8 +167,7 @@ def run(ctx):
 
     # ---- R13.3 corner sum (locals are identified by what they are, not by their names)
     from .fc import inline_value_calls
-    di = inline_value_calls(p, p.get_method(ND, "_data_interpolator"),
-                            keep=("output_indexing_full", "output_indexing_broadcast", "get_data", "output_shape", "_next_point"))       # helpers that hand back the accumulators are seen through
+    di = inline_value_calls(p, p.get_method(ND, "_data_interpolator"), keep=INTERPOLATOR_VOCABULARY)       # helpers that hand back the accumulators are seen through
     it = Interp(p)
     rets = [n for n in ast.walk(di.node) if isinstance(n, ast.Return)]
     roles = _interpolator_roles(di)
@@ -424,6 +423,10 @@ def run(ctx):
     ctx.require_count("R13.4", 5)
     ctx.require_count("R13.5", 14)
     ctx.require_count("R13.6", 10)
+
+
+# methods the corner-sum rules know by name (the interpolator's own interface); everything else is inlined before the rules look
+INTERPOLATOR_VOCABULARY = ("output_indexing_full", "output_indexing_broadcast", "get_data", "output_shape", "_next_point")
 
 
 def _interpolator_roles(di):
